@@ -53,6 +53,7 @@ class ConsequentMonitor:
         self.rejected = set()  # id(rule) of rules whose load the workload saw rejected: triggering them must add nothing
         self.engine_of = {}  # id(rule) -> engine the workload says the rule belongs to (its output variables are the ones meant)
         self.user_hedges = {}  # id(rule) -> [hedge functions per conclusion] the workload configured for hedges of its own classes
+        self.api = {}  # id(rule) -> [(variable name, [hedge names], term name)] of a consequent the workload assembled by hand
 
     def install(self, probe):
         fl = self.fl
@@ -100,7 +101,7 @@ class ConsequentMonitor:
             return
         own = self.user_hedges.get(id(rule))
         try:
-            concl = parse_consequent(rule.consequent.text, extra=("power",) if own else ())
+            concl = self.api[id(rule)] if id(rule) in self.api else parse_consequent(rule.consequent.text, extra=("power",) if own else ())
         except (W.RuleSyntax, IndexError):
             ctx.hit("out_of_domain:consequent outside the documented grammar")
             return
@@ -316,6 +317,53 @@ def run(ctx):
                     ctx.hit("event:a concluded term or variable is replaced by a same-named object and the rule loaded again")
                 except Exception as ex:
                     ctx.violation(f"reloading a rule after a same-named replacement raised {type(ex).__name__}", {"rule": text}, "no error", repr(ex)[:200])
+            if i % 4 == 2 and engine.output_variables:
+                # the rule, loaded for this engine, is handed to another engine of the same description (new variable and term
+                # objects) through a rule block: it is loaded for that engine now and concludes about its variables
+                text = "if in0 is t then " + " and ".join(E.prop_text(c) for c in concl) + E.weight_text(w, 3)
+                try:
+                    rule = fl.Rule.create(text, engine)
+                    with fl.settings.context(decimals=17):
+                        other = fl.FllImporter().from_string(fl.FllExporter().to_string(engine))
+                    for a, b in zip(engine.output_variables, other.output_variables):
+                        b.enabled = a.enabled
+                    if i % 8 == 2:
+                        other.rule_blocks[:] = [fl.RuleBlock("moved", rules=[rule])]
+                        other.rule_blocks[0].load_rules(other)
+                    else:
+                        other = fl.Engine(other.name, input_variables=other.input_variables, output_variables=other.output_variables, rule_blocks=[fl.RuleBlock("moved", rules=[rule])])
+                    mon.engine_of = {id(rule): other}
+                    rule.activation_degree = fl.scalar(rnd.choice([0.5, 1.0, 0.25]))
+                    rule.trigger(implication)
+                    ctx.hit("event:a loaded rule is handed to another engine through a rule block")
+                except Exception as ex:
+                    ctx.violation(f"handing a loaded rule to another engine raised {type(ex).__name__}", {"rule": text}, "no error", repr(ex)[:200])
+            if i % 4 == 3 and engine.output_variables:
+                # a consequent assembled by hand from propositions that were made from one list of hedges; one of them is then edited:
+                # each conclusion has its own hedges
+                try:
+                    common = [fl.Very()] if i % 8 == 3 else [fl.Somewhat(), fl.Very()]
+                    names0 = [h.name for h in common]
+                    ovs = [ov for ov in engine.output_variables if ov.terms][:2] or engine.output_variables[:1]
+                    props = [fl.Proposition(ov, common, ov.terms[0]) for ov in ovs] + [fl.Proposition(ovs[0], common, ovs[0].terms[-1])]
+                    rule = fl.Rule.create("if in0 is t then " + " and ".join(f"{p.variable.name} is {' '.join(names0)} {p.term.name}" for p in props), engine)
+                    rule.consequent.conclusions = props
+                    truth = [(p.variable.name, list(names0), p.term.name) for p in props]
+                    mon.api = {id(rule): truth}
+                    mon.engine_of = {id(rule): engine}
+                    for step in range(2):
+                        for ov in engine.output_variables:
+                            ov.fuzzy.clear()
+                        rule.activation_degree = fl.scalar(rnd.choice([0.5, 0.25, np.array([0.0, 0.3, 1.0])]))
+                        rule.trigger(implication)
+                        # the first conclusion gets one more hedge: the others keep theirs
+                        props[0].hedges.insert(0, fl.Not())
+                        truth[0] = (truth[0][0], ["not"] + truth[0][1], truth[0][2])
+                    mon.api = {}
+                    ctx.hit("event:conclusions made from one list of hedges, one of them edited")
+                except Exception as ex:
+                    mon.api = {}
+                    ctx.hit(f"inconclusive:hand-made consequent: {type(ex).__name__}: {str(ex)[:80]}")
             if i % 5 == 0:
                 # a consequent that goes wrong after its first conclusion: the load is rejected and the rule stays out
                 bad = "if in0 is t then " + E.prop_text(concl[0]) + rnd.choice([" and nosuchvariable is x", f" and {specs[0]['name']} is nosuchterm", f" and {specs[0]['name']} is", " and", f" and {specs[0]['name']} very"])
@@ -396,6 +444,7 @@ def run(ctx):
             mon.user_hedges = {}
         probe.report(ctx)
         reach.report(ctx)
+    ctx.require("event:a loaded rule is handed to another engine through a rule block", "event:conclusions made from one list of hedges, one of them edited")
     ctx.require("workload:conclusions with equally named user hedges of different settings", "event:a concluded term or variable is replaced by a same-named object and the rule loaded again", *[f"environment:{e}" for e in ENVIRONMENTS])
     ctx.require("hook:Rule.trigger", "hook:Consequent.modify", "hook:Activated.degree.setter", "compare:appended terms", "law:permutation", "piece:disabled rule", "piece:conclusion on a disabled variable", "piece:hedged conclusion", "piece:hedge on an earlier conclusion of several", "piece:rule whose load was rejected", "event:triggered again under another implication operator", "event:variable enabled flag changed between two triggers of a loaded rule", "degree:batch", "degree:grid", "route:rule of a duplicated engine (copy)", "route:rule of a duplicated engine (deepcopy)", "degree:nan", "degree:inf", "degree:zero", "degree:partial")
 
